@@ -1,6 +1,429 @@
-//! C18 (placeholder until the fault engine lands)
-use crate::check::EngineReport;
+//! E3 / C18: fault-point enumeration. For every reachable state of a small closure, every
+//! operation, and every call the operation makes into user code (the i-th Hash / Eq / Clone / Drop
+//! of a key or value, BuildHasher / Hasher call, eviction callback, KeyHasher call), inject a
+//! panic at exactly that call; then audit for dangling nodes, run every single follow-up operation
+//! (fresh replay per follow-up) and drop the cache. Deviation bound: 1 injected fault per
+//! execution (thorough: a 2nd one inside the follow-up).
+//!
+//! Hazards (violations): a key/value dropped twice or used after its drop, a double free or a
+//! free with the wrong size, a node that is reachable but not a live block, a dead object handed
+//! to the caller. Allowed: panics, wrong answers, structural inconsistency, leaks (counted).
+use crate::check::{EngineReport, Extra};
+use crate::driver::Wants;
+use crate::engine::{explore, Limits};
+use crate::hashers::{HKind, KHKind};
+use crate::ops::*;
+use crate::oracle::Finding;
 use crate::plan::Tier;
-pub fn run(_tier: Tier) -> EngineReport {
-    EngineReport { name: "fault-enumeration".into(), ..Default::default() }
+use crate::subjects::*;
+use crate::track::fault::{self, FK, NKINDS};
+use crate::track::{self, TK, TV};
+use crate::{alloc, panics};
+use rayon::prelude::*;
+use serde::{Deserialize, Serialize};
+use serde_json::{json, Value};
+use std::collections::{BTreeMap, BTreeSet};
+use std::panic::{catch_unwind, AssertUnwindSafe};
+
+#[derive(Clone, Copy, Debug, PartialEq, Eq, Serialize, Deserialize, PartialOrd, Ord)]
+pub enum FOp {
+    Op(Op),
+    /// clone the cache, then drop the clone
+    CloneDrop,
+    /// drop the cache (the fault is injected into the drop itself)
+    DropCache,
+}
+
+#[derive(Clone, Debug, Default)]
+pub struct FaultRes {
+    pub counts: [u32; NKINDS],
+    pub fired: bool,
+    pub op_panicked: bool,
+    pub follow_panicked: bool,
+    pub drop_panicked: bool,
+    pub hazards: Vec<String>,
+    pub inconsistent: bool,
+    pub leaked_blocks: usize,
+    pub follow_counts: [u32; NKINDS],
+}
+
+fn dead_in(r: &Ret) -> bool {
+    let dv = |v: &VV| v.0 == 255 || v.1 == 255;
+    match r {
+        Ret::V(Some(v)) => dv(v),
+        Ret::KV(Some((k, v))) => *k == 255 || dv(v),
+        Ret::Put(p) | Ret::OrPut(_, Some(p)) | Ret::BoolOrPut(_, Some(p)) => match p {
+            PR::Put => false,
+            PR::Update(v) => dv(v),
+            PR::Evicted(k, v) => *k == 255 || dv(v),
+            PR::EvictedAndUpdate((k, v), u) => *k == 255 || dv(v) || dv(u),
+        },
+        Ret::Many(v) => v.iter().any(dead_in),
+        Ret::Ents(v) => v.iter().any(|(k, v)| (*k == 255 && v.0 != 0) || (v.0 == 255 && *k != 255 && v.1 == 255)),
+        _ => false,
+    }
+}
+
+fn dangling_of<S: Subject>(c: &S, res: &mut FaultRes, when: &str) -> bool {
+    match catch_unwind(AssertUnwindSafe(|| c.audit(false))) {
+        Ok(l) => {
+            let mut any = false;
+            for (name, a) in l {
+                for d in a.dangling {
+                    let msg = alloc::untracked(|| format!("{}: {} ({})", name, d, when));
+                    alloc::untracked(|| res.hazards.push(msg));
+                    any = true;
+                }
+                if !a.structural.is_empty() {
+                    res.inconsistent = true;
+                }
+            }
+            any
+        }
+        Err(_) => {
+            let m = panics::take_last();
+            alloc::untracked(|| res.hazards.push(format!("hazard audit panicked: {}", m)));
+            true
+        }
+    }
+}
+
+/// one execution: replay `hist` quietly, run `fop` with an optional injected fault, audit, run the
+/// optional follow-up (with an optional 2nd fault), drop.
+pub fn execute<S: Subject>(cfg: &Cfg, hist: &[Op], fop: FOp, inject: Option<(FK, u32)>, follow: Option<Op>, inject2: Option<(FK, u32)>) -> FaultRes {
+    let mut res = FaultRes::default();
+    let _ = take_cb_log();
+    let _ = panics::take_last();
+    alloc::begin();
+    track::begin();
+    {
+        let built = catch_unwind(AssertUnwindSafe(|| {
+            let mut c = S::build(cfg)?;
+            let mut out = Vec::new();
+            for h in hist {
+                c.apply(*h, &mut out);
+            }
+            Ok::<S, String>(c)
+        }));
+        let mut c: Option<S> = match built {
+            Ok(Ok(c)) => Some(c),
+            _ => None,
+        };
+        if let Some(cache) = c.as_mut() {
+            let mut out = Vec::new();
+            fault::start(inject);
+            let r = match fop {
+                FOp::Op(op) => catch_unwind(AssertUnwindSafe(|| {
+                    let r = cache.apply(op, &mut out);
+                    dead_in(&r)
+                })),
+                FOp::CloneDrop => catch_unwind(AssertUnwindSafe(|| {
+                    let k = cache.try_clone();
+                    drop(k);
+                    false
+                })),
+                FOp::DropCache => {
+                    let taken = c.take().unwrap();
+                    catch_unwind(AssertUnwindSafe(move || {
+                        drop(taken);
+                        false
+                    }))
+                }
+            };
+            let (counts, fired) = fault::stop();
+            res.counts = counts;
+            res.fired = inject.is_some() && fired;
+            match r {
+                Ok(true) => alloc::untracked(|| res.hazards.push(format!("{:?} handed a dead key/value to the caller", fop))),
+                Ok(false) => {}
+                Err(_) => res.op_panicked = true,
+            }
+            drop(out);
+        }
+        if let Some(cache) = c.as_mut() {
+            let dangling = dangling_of(cache, &mut res, "after the faulted operation");
+            if dangling {
+                std::mem::forget(c.take());
+            }
+        }
+        if let (Some(cache), Some(f)) = (c.as_mut(), follow) {
+            let mut out = Vec::new();
+            fault::start(inject2);
+            let r = catch_unwind(AssertUnwindSafe(|| {
+                let r = cache.apply(f, &mut out);
+                dead_in(&r)
+            }));
+            let (counts, _) = fault::stop();
+            res.follow_counts = counts;
+            match r {
+                Ok(true) => alloc::untracked(|| res.hazards.push(format!("follow-up {:?} handed a dead key/value to the caller", f))),
+                Ok(false) => {}
+                Err(_) => res.follow_panicked = true,
+            }
+            drop(out);
+            let dangling = dangling_of(cache, &mut res, "after the follow-up operation");
+            if dangling {
+                std::mem::forget(c.take());
+            }
+        }
+        if let Some(cache) = c.take() {
+            if catch_unwind(AssertUnwindSafe(move || drop(cache))).is_err() {
+                res.drop_panicked = true;
+            }
+        }
+    }
+    for e in track::take_errors() {
+        res.hazards.push(e);
+    }
+    let rep = alloc::end();
+    for e in rep.errors {
+        res.hazards.push(e);
+    }
+    res.leaked_blocks = rep.leaked_blocks;
+    res
+}
+
+pub trait FaultDriver: Sync + Send {
+    fn exec(&self, hist: &[Op], fop: FOp, inject: Option<(FK, u32)>, follow: Option<Op>, inject2: Option<(FK, u32)>) -> FaultRes;
+}
+struct FD<S> {
+    cfg: Cfg,
+    _p: std::marker::PhantomData<fn() -> S>,
+}
+impl<S: Subject> FaultDriver for FD<S> {
+    fn exec(&self, hist: &[Op], fop: FOp, inject: Option<(FK, u32)>, follow: Option<Op>, inject2: Option<(FK, u32)>) -> FaultRes {
+        execute::<S>(&self.cfg, hist, fop, inject, follow, inject2)
+    }
+}
+
+pub fn fault_driver(cfg: &Cfg) -> Box<dyn FaultDriver> {
+    let c = cfg.clone();
+    match cfg.kind {
+        Kind::Raw => Box::new(FD::<RawSubj<TK, TV>> { cfg: c, _p: Default::default() }),
+        Kind::Slru => Box::new(FD::<SlruSubj<TK, TV>> { cfg: c, _p: Default::default() }),
+        Kind::TwoQ => Box::new(FD::<TwoQSubj<TK, TV>> { cfg: c, _p: Default::default() }),
+        Kind::Arc => Box::new(FD::<ArcSubj<TK, TV>> { cfg: c, _p: Default::default() }),
+        Kind::Wtlfu => Box::new(FD::<WtlfuSubj<TK, TV>> { cfg: c, _p: Default::default() }),
+    }
+}
+
+fn menu(tier: Tier) -> Vec<Cfg> {
+    let mut v = vec![];
+    let mk = |kind: Kind, caps: &[usize], keys: u8| {
+        let mut c = Cfg::base(kind, caps, keys);
+        c.key_ty = KeyTy::Tracked;
+        c.hasher = HKind::SipA;
+        c.lean_ops = true;
+        c
+    };
+    let mut raw = mk(Kind::Raw, &[2], 3);
+    raw.callback = 2;
+    raw.resize = vec![1, 3];
+    raw.lean_ops = false;
+    v.push(raw);
+    v.push(mk(Kind::Slru, &[1, 1], 3));
+    let mut q = mk(Kind::TwoQ, &[2], 4);
+    q.ratios = (0.5, 0.5);
+    v.push(q);
+    v.push(mk(Kind::Arc, &[1], 3));
+    let mut w = mk(Kind::Wtlfu, &[1, 1, 1], 4);
+    w.kh = KHKind::Spread;
+    v.push(w);
+    if tier == Tier::Thorough {
+        v.push(mk(Kind::Arc, &[2], 4));
+        v.push(mk(Kind::Slru, &[2, 1], 4));
+        let mut q = mk(Kind::TwoQ, &[3], 5);
+        q.ratios = (0.34, 0.34);
+        v.push(q);
+        let mut raw = mk(Kind::Raw, &[3], 4);
+        raw.callback = 2;
+        raw.hasher = HKind::Zero;
+        v.push(raw);
+        let mut raw1 = mk(Kind::Raw, &[1], 2);
+        raw1.callback = 2;
+        raw1.resize = vec![0, 2];
+        raw1.lean_ops = false;
+        v.push(raw1);
+    }
+    v
+}
+
+fn fops(cfg: &Cfg) -> Vec<FOp> {
+    let mut v: Vec<FOp> = mutators(cfg).into_iter().map(FOp::Op).collect();
+    for k in 0..cfg.keys.min(2) {
+        v.push(FOp::Op(Op::Peek(k)));
+        v.push(FOp::Op(Op::Contains(k)));
+        v.push(FOp::Op(Op::PeekMut(k)));
+    }
+    if matches!(cfg.kind, Kind::Raw | Kind::Slru | Kind::Wtlfu) {
+        v.push(FOp::CloneDrop);
+    }
+    v.push(FOp::DropCache);
+    v
+}
+
+#[derive(Default)]
+struct Stat {
+    executions: u64,
+    points: u64,
+    fired: u64,
+    op_panics: u64,
+    follow_panics: u64,
+    drop_panics: u64,
+    inconsistent: u64,
+    leaks: u64,
+    by_kind: BTreeMap<String, u64>,
+    findings: Vec<(Finding, Value)>,
+}
+
+pub fn run(tier: Tier) -> EngineReport {
+    let mut rep = EngineReport { name: "fault-point-enumeration".into(), exhaustive: true, ..Default::default() };
+    let mut details = vec![];
+    let props: BTreeSet<&'static str> = BTreeSet::new();
+    for cfg in menu(tier) {
+        // 1. the reachable states of the configuration (no faults)
+        let d = crate::driver::make_driver(&cfg);
+        let want = Wants::default();
+        let lim = Limits { max_states: if tier == Tier::Quick { 400 } else { 3000 }, collect_histories: true, ..Default::default() };
+        let ex = explore(d.as_ref(), &props, &want, &lim);
+        let mut hists = ex.histories.clone();
+        let cap_states = if tier == Tier::Quick { 120 } else { 1500 };
+        let truncated = hists.len() > cap_states;
+        if truncated {
+            // keep a prefix of the BFS order (all states up to some depth) — reported as capped
+            hists.truncate(cap_states);
+            rep.exhaustive = false;
+        }
+        if !ex.closed {
+            rep.exhaustive = false;
+        }
+        let fd = fault_driver(&cfg);
+        let fo = fops(&cfg);
+        let follows: Vec<Op> = mutators(&cfg);
+        let second = tier == Tier::Thorough;
+        let stats: Vec<Stat> = hists
+            .par_iter()
+            .map(|h| {
+                let mut st = Stat::default();
+                for fop in &fo {
+                    let dry = fd.exec(h, *fop, None, None, None);
+                    st.executions += 1;
+                    for kind in fault::ALL {
+                        let n = dry.counts[kind as usize];
+                        for i in 0..n {
+                            st.points += 1;
+                            *st.by_kind.entry(format!("{:?}", kind)).or_insert(0) += 1;
+                            let mut follow_list: Vec<Option<Op>> = vec![None];
+                            if *fop != FOp::DropCache {
+                                follow_list.extend(follows.iter().map(|f| Some(*f)));
+                            }
+                            for f in follow_list {
+                                let mut injections2: Vec<Option<(FK, u32)>> = vec![None];
+                                if second && f.is_some() {
+                                    // second deviation: every fault point of the follow-up (counted on a dry follow-up)
+                                    let dry2 = fd.exec(h, *fop, Some((kind, i)), f, None);
+                                    st.executions += 1;
+                                    for k2 in fault::ALL {
+                                        for j in 0..dry2.follow_counts[k2 as usize].min(3) {
+                                            injections2.push(Some((k2, j)));
+                                        }
+                                    }
+                                }
+                                for inj2 in injections2 {
+                                    let r = fd.exec(h, *fop, Some((kind, i)), f, inj2);
+                                    st.executions += 1;
+                                    st.fired += r.fired as u64;
+                                    st.op_panics += r.op_panicked as u64;
+                                    st.follow_panics += r.follow_panicked as u64;
+                                    st.drop_panics += r.drop_panicked as u64;
+                                    st.inconsistent += r.inconsistent as u64;
+                                    st.leaks += (r.leaked_blocks > 0) as u64;
+                                    if !r.fired && f.is_none() && inj2.is_none() {
+                                        st.findings.push((
+                                            Finding::new("C18", "machinery.fault_did_not_fire", format!("{:?}", kind), format!("armed fault {:?}#{} did not fire on replay of {:?} / {:?}", kind, i, h, fop)),
+                                            json!(null),
+                                        ));
+                                    }
+                                    for hz in &r.hazards {
+                                        let class = if hz.contains("double drop") {
+                                            "double_drop"
+                                        } else if hz.contains("double free") || hz.contains("free of block") {
+                                            "double_free"
+                                        } else if hz.contains("not a live") {
+                                            "dangling_node"
+                                        } else {
+                                            "use_of_dead_object"
+                                        };
+                                        st.findings.push((
+                                            Finding::new(
+                                                "C18",
+                                                "no_hazard_after_user_panic",
+                                                format!("{:?}/{}/{:?}", cfg.kind, class, kind),
+                                                format!("{} — panic injected at {:?} call #{} during {:?} after {:?}{}", hz, kind, i, fop, h, f.map(|f| format!(", follow-up {:?}", f)).unwrap_or_default()),
+                                            ),
+                                            json!({"engine": "faults", "cfg": cfg, "history": h, "fop": fop, "inject": [kind, i], "follow": f, "inject2": inj2}),
+                                        ));
+                                    }
+                                }
+                            }
+                        }
+                    }
+                }
+                st
+            })
+            .collect();
+        let mut tot = Stat::default();
+        for s in stats {
+            tot.executions += s.executions;
+            tot.points += s.points;
+            tot.fired += s.fired;
+            tot.op_panics += s.op_panics;
+            tot.follow_panics += s.follow_panics;
+            tot.drop_panics += s.drop_panics;
+            tot.inconsistent += s.inconsistent;
+            tot.leaks += s.leaks;
+            for (k, v) in s.by_kind {
+                *tot.by_kind.entry(k).or_insert(0) += v;
+            }
+            for (f, c) in s.findings {
+                if f.check.starts_with("machinery") {
+                    if rep.machinery_errors.len() < 3 {
+                        rep.machinery_errors.push(f.detail.clone());
+                    }
+                } else {
+                    rep.violations.push(Extra { finding: f, case: c, count: 1 });
+                }
+            }
+        }
+        rep.states += hists.len() as u64;
+        rep.transitions += tot.points;
+        rep.evaluations += tot.executions;
+        rep.distinct_nontrivial += tot.points;
+        details.push(json!({
+            "config": cfg.label(), "states": hists.len(), "states_in_closure": ex.states, "state_prefix_only": truncated, "operations_faulted": fo.len(),
+            "follow_ups_per_point": follows.len() + 1, "fault_points": tot.points, "fault_points_by_kind": tot.by_kind, "executions": tot.executions,
+            "faults_fired": tot.fired, "executions_where_the_faulted_op_unwound": tot.op_panics, "follow_up_panics_(allowed)": tot.follow_panics,
+            "drop_panics_(allowed)": tot.drop_panics, "structurally_inconsistent_afterwards_(allowed)": tot.inconsistent, "executions_with_leaks_(allowed)": tot.leaks,
+            "second_fault_in_follow_up": second,
+        }));
+        if let Some(h) = hists.last() {
+            rep.samples.push(json!({"engine": "faults", "config": cfg.label(), "state_history": format!("{:?}", h), "example": "every op x every Hash/Eq/Clone/Drop/hasher/callback call index x every follow-up op"}));
+        }
+    }
+    rep.capped = if rep.exhaustive { None } else { Some("state prefix cap hit in some configuration (see detail)".into()) };
+    rep.detail = json!(details);
+    rep
+}
+
+pub fn replay_case(case: &Value) -> Vec<Finding> {
+    let cfg: Cfg = serde_json::from_value(case["cfg"].clone()).unwrap();
+    let hist: Vec<Op> = serde_json::from_value(case["history"].clone()).unwrap();
+    let fop: FOp = serde_json::from_value(case["fop"].clone()).unwrap();
+    let inject: Option<(FK, u32)> = serde_json::from_value(case["inject"].clone()).ok();
+    let follow: Option<Op> = serde_json::from_value(case["follow"].clone()).unwrap_or(None);
+    let inject2: Option<(FK, u32)> = serde_json::from_value(case["inject2"].clone()).unwrap_or(None);
+    let fd = fault_driver(&cfg);
+    let r = fd.exec(&hist, fop, inject, follow, inject2);
+    println!("fault fired: {}, faulted op unwound: {}, follow-up panicked: {}, drop panicked: {}, leaked blocks: {}", r.fired, r.op_panicked, r.follow_panicked, r.drop_panicked, r.leaked_blocks);
+    r.hazards.iter().map(|h| Finding::new("C18", "no_hazard_after_user_panic", format!("{:?}", cfg.kind), h.clone())).collect()
 }
